@@ -25,7 +25,8 @@ demo; R1=$?
 TAIL1=$(tail -2 $WT/_demo.out 2>/dev/null | tr '\n' ' ')
 RT=0; UTSUM=""
 for T in $(echo $TEST | tr ',' ' '); do
-  g++ $FLAGS -I$WT/test $WT/$T $WT/_lib.a -L/root/miniconda/lib -Wl,-rpath,/root/miniconda/lib -lgtest -lgtest_main $LIBS -labsl_time_zone -o $WT/_ut 2>$WT/_ut.err && ( cd $WT && timeout 600 ./_ut > $WT/_ut.out 2>&1 ); R=$?
+  PB=""; grep -q "arena_example.pb.h" $WT/$T && PB="-I/repo/_build /repo/_build/arena_example.pb.cc"
+  g++ $FLAGS -I$WT/test $WT/$T $PB $WT/_lib.a -L/root/miniconda/lib -Wl,-rpath,/root/miniconda/lib -lgtest -lgtest_main $LIBS -labsl_time_zone -o $WT/_ut 2>$WT/_ut.err && ( cd $WT && timeout 600 ./_ut > $WT/_ut.out 2>&1 ); R=$?
   UTSUM="$UTSUM $T:rc=$R($(tail -1 $WT/_ut.out 2>/dev/null | tr -d '\n'))"
   [ $R -ne 0 ] && { RT=$R; tail -5 $WT/_ut.err; }
 done
